@@ -797,6 +797,343 @@ def intern_check(prop, tier, seed):
                             "bulk ranges are registered in order by the driver and summarised (count of fresh ids, contiguity, read-back) so that >2^16 registrations stay cheap to validate"]}
 
 
+HTML_CFG = "SPECIFICATION Spec\nCONSTANTS\n  Dump = TRUE\n  Full = {full}\nINVARIANTS ValidInput DumpState\nCHECK_DEADLOCK FALSE\n"
+HTML_NAMES = ["br", "BR", "Br", "img", "hr", "span", "em", "pre", "textarea", "div", "p", "table", "zzz", "script", "style", "SCRIPT", "svg", "math", "title", "input", "li"]
+HTML_NSS = ["", "http://www.w3.org/1999/xhtml", "http://www.w3.org/1998/Math/MathML", "http://www.w3.org/2000/svg", "u1"]
+
+
+def html_check(prop, tier, seed):
+    """C19: the HTML5 output method."""
+    import gen
+    quick = tier == "quick"
+    exe = vlib.build_harness()
+    d = vlib.workdir("html")
+    rnd = random.Random(seed)
+    states, r_g = dump_states("MCHtml.tla", HTML_CFG.format(full="FALSE" if quick else "TRUE"), "C19_html")
+    rnd.shuffle(states)
+    jobs = []
+    counts = {"enumerated": 0, "random": 0}
+    sup_opts = [[], [["", "div"]], [["", "pre"], ["http://www.w3.org/1999/xhtml", "DIV"]]]
+    cd_opts = [[], [["", "zzz"]], [["", "div"], ["u1", "zzz"]]]
+    def raw_name_ok(st):
+        # script / style are only meaningful as HTML element names; elsewhere an HTML tokenizer would misread the output
+        return all(not (nd["k"] == "elem" and nd["ln"].lower() in ("script", "style") and nd["ns"] not in ("", "http://www.w3.org/1999/xhtml")) for nd in st["n"])
+    states = [st for st in states if raw_name_ok(st)]
+    for k, st in enumerate(states[: (4000 if quick else 90000)]):
+        roots = [1]
+        if k % 7 == 0:
+            # serialise inner nodes on their own too (not a text node in place: how its parent escapes it is not the
+            # question the property asks about a node serialised by itself)
+            roots += [i + 1 for i, nd in enumerate(st["n"]) if i > 0 and nd["k"] != "text"][:3]
+        for r in roots:
+            jobs.append({"st": st, "root": r, "indent": k % 3 == 0, "suppress": sup_opts[k % 3] if k % 3 == 0 else [], "cdata": cd_opts[(k // 3) % 3]})
+            counts["enumerated"] += 1
+    # random trees over HTML names in any case, all namespaces, any text / attribute content, PIs with and without '>'
+    for k in range(1500 if quick else 20000):
+        f, roots = gen.random_forest(rnd, rnd.choice([3, 6, 10, 16]), shape="mixed", nsrich=(k % 4 == 0), trees=1)
+        for nd in f.n:
+            if nd["k"] == "elem":
+                nd["ln"] = rnd.choice(HTML_NAMES)
+                nd["ns"] = rnd.choice(HTML_NSS)
+                if nd["ln"].lower() in ("script", "style") and nd["ns"] not in ("", "http://www.w3.org/1999/xhtml"):
+                    nd["ns"] = ""
+            if nd["k"] == "text":
+                nd["t"] = [rnd.choice([120, 60, 38, 62, 34, 39, 160, 32, 233]) for _ in range(rnd.randrange(1, 5))]
+            if nd["k"] == "attr" and nd["ns"] != gen.XMLNS:
+                nd["t"] = [rnd.choice([120, 60, 38, 62, 34, 39, 160]) for _ in range(rnd.randrange(0, 4))]
+                if rnd.random() < 0.2:
+                    nd["ln"], nd["t"] = "checked", gen.cps(rnd.choice(["checked", "CHECKED"]))
+            if nd["k"] == "pi":
+                nd["ns"] = ""
+                if nd["d"]:
+                    nd["t"] = gen.cps(rnd.choice(["d", "a>b", "x y"]))
+        # real XHTML documents: a default declaration for the XHTML namespace on the top element
+        if k % 3 == 0:
+            tops = [i + 1 for i, nd in enumerate(f.n) if nd["k"] == "elem" and (nd["p"] == 0 or f.n[nd["p"] - 1]["k"] == "doc")]
+            for t in tops[:1]:
+                if not any(f.n[c - 1]["k"] == "nsn" and f.n[c - 1]["ln"] == "" for c in f.n[t - 1]["c"]):
+                    f.add(gen.node("nsn", ln="", u="http://www.w3.org/1999/xhtml"), t)
+                    for nd in f.n:
+                        if nd["k"] == "elem" and nd["ns"] in ("", "u1"):
+                            nd["ns"] = "http://www.w3.org/1999/xhtml"
+        # text in script/style must not contain the end-tag opener; keep '<' out of those texts
+        for nd in f.n:
+            if nd["k"] == "text" and nd["p"] and f.n[nd["p"] - 1]["ln"].lower() in ("script", "style"):
+                nd["t"] = [c for c in nd["t"] if c != 60] or [120]
+        # script / style hold raw text only: element / comment / PI children are moved out (they become roots)
+        for nd in f.n:
+            if nd["k"] == "elem" and nd["ln"].lower() in ("script", "style"):
+                keep = []
+                for c in nd["c"]:
+                    if f.n[c - 1]["k"] in ("text", "attr", "nsn"):
+                        keep.append(c)
+                    else:
+                        f.n[c - 1]["p"] = 0
+                # at most one text child (no adjacent text nodes)
+                texts = [c for c in keep if f.n[c - 1]["k"] == "text"]
+                for c in texts[1:]:
+                    keep.remove(c)
+                    f.n[c - 1]["p"] = 0
+                nd["c"] = keep
+        # unique attribute keys may have been broken by renaming: drop duplicates
+        for i, nd in enumerate(f.n):
+            if nd["k"] == "elem":
+                seen = set()
+                keep = []
+                for c in nd["c"]:
+                    ch = f.n[c - 1]
+                    if ch["k"] == "attr":
+                        key = (ch["ns"], ch["ln"])
+                        if key in seen:
+                            ch["p"] = 0
+                            continue
+                        seen.add(key)
+                    keep.append(c)
+                nd["c"] = keep
+        jobs.append({"st": f.state(), "root": roots[0], "indent": k % 2 == 0, "suppress": rnd.choice(sup_opts), "cdata": rnd.choice(cd_opts)})
+        counts["random"] += 1
+    rnd.shuffle(jobs)
+    jp = os.path.join(d, "jobs.ndjson")
+    with open(jp, "w") as fh:
+        for j in jobs:
+            fh.write(json.dumps(j) + "\n")
+    op = os.path.join(d, "out.ndjson")
+    vlib.run_harness(exe, ["html", "--jobs", jp, "--out", op], timeout=1800 if quick else 7200)
+    v = vlib.validate_trace_flat(op, module="TraceHtml.tla", cfg="TraceHtml.cfg", nshards=14, timeout=1800 if quick else 10000, tag="C19")
+    violations, known = [], {}
+    for rj in v["rejects"]:
+        if rj["prop"] == "TOOL":
+            raise ToolError(f"generated state rejected as input: {rj['detail']}")
+        if rj["known"]:
+            known.setdefault(rj["known"], 0)
+            known[rj["known"]] += 1
+            continue
+        if len(violations) < 25:
+            ev = json.loads(v["lines"][rj["line"]])
+            violations.append(vlib.save_replay(prop, {"kind": "html", "job": {k: ev[k] for k in ("st", "root", "indent", "suppress", "cdata")}}, rj))
+            log(f"  reject: root={ev['root']} text={''.join(map(chr, ev['text']))[:160]!r} detail={json.dumps(rj['detail'])[:300]}")
+    kf = {f["id"]: f for f in vlib.load_known()}
+    known_lines = [f"{kid} ({cnt} events): {kf.get(kid, {}).get('what', '')}" for kid, cnt in sorted(known.items())]
+    distinct = len({json.dumps(j["st"]["n"]) + str(j["root"]) for j in jobs})
+    cov = {"states": r_g["distinct"], "transitions": r_g["generated"], "traces_validated_against_impl": len(jobs), "evaluations": len(jobs),
+           "distinct_nontrivial": distinct,
+           "rule": "one event per (forest, node, parameters): html5() serialisation under catch_unwind, output tokenised by an independent HTML tokenizer, rules judged by TLC; distinct = distinct (forest, node) pairs",
+           "samples": [{"root": jobs[0]["root"], "indent": jobs[0]["indent"], "first_nodes": jobs[0]["st"]["n"][:4]}], "exhaustive": False, "inputs": counts}
+    import shutil
+    shutil.rmtree(d, ignore_errors=True)
+    return {"violations": violations, "known": known_lines, "coverage": cov,
+            "assumptions": ["TLC 1.8 and the Json/IOUtils community modules", "the harness's HTML tokenizer (total; raw-text mode for script/style) and its ASCII lower-casing of local names",
+                            "void elements: the HTML5 list; names void only in older HTML versions are not generated"]}
+
+
+BUILD_CFG = "SPECIFICATION Spec\nCONSTANTS\n  Target = {target}\n  Dump = {dump}\nINVARIANTS Confluent ValidAlways DumpProgram\n{view}CHECK_DEADLOCK FALSE\n"
+
+
+def forest_to_doc(D):
+    """abstract document in xmlgen's shape from a target forest (node 1 = document node)"""
+    import xmlgen as X
+
+    def el(i):
+        nd = D[i - 1]
+        e = {"ns": nd["ns"], "ln": nd["ln"], "decls": [], "attrs": [], "kids": []}
+        for c in nd["c"]:
+            ch = D[c - 1]
+            if ch["k"] == "nsn":
+                e["decls"].append((ch["ln"], ch["u"]))
+            elif ch["k"] == "attr":
+                e["attrs"].append((ch["ns"], ch["ln"], list(ch["t"])))
+            else:
+                e["kids"].append(item(c))
+        return e
+
+    def item(c):
+        ch = D[c - 1]
+        if ch["k"] == "elem":
+            return el(c)
+        if ch["k"] == "text":
+            return ("text", list(ch["t"]))
+        if ch["k"] == "comm":
+            return ("comm", list(ch["t"]))
+        return ("pi", ch["ln"], list(ch["t"]) if ch["d"] else None)
+
+    before, after, root = [], [], None
+    for c in D[0]["c"]:
+        if D[c - 1]["k"] == "elem":
+            root = el(c)
+        elif root is None:
+            before.append(item(c))
+        else:
+            after.append(item(c))
+    return {"before": before, "root": root, "after": after}
+
+
+def random_program(D, rnd):
+    """a random valid construction order for target forest D, following the enabling rules of MCBuild"""
+    n = len(D)
+    made = [0] * (n + 1)
+    att = set()
+    ops = []
+    count = 0
+    normal = lambda t: D[t - 1]["k"] not in ("attr", "nsn")
+    def sibs(t):
+        return [c for c in D[D[t - 1]["p"] - 1]["c"] if normal(c)]
+    def ev(op, a, nd=None, **kw):
+        o = {"op": op, "a": a, "ns": "", "ln": "", "s": [], "px": "", "uri": "", "b": False}
+        o.update(kw)
+        return o
+    while True:
+        cands = []
+        for t in range(1, n + 1):
+            nd = D[t - 1]
+            if made[t] == 0 and normal(t):
+                cands.append(("create", t, None))
+            if made[t] == 0 and not normal(t) and made[nd["p"]]:
+                ab = [c for c in D[nd["p"] - 1]["c"] if not normal(c)]
+                k = ab.index(t)
+                if k == 0 or made[ab[k - 1]]:
+                    cands.append(("setabn", t, None))
+            if normal(t) and nd["p"] and made[t] and made[nd["p"]] and t not in att:
+                s = sibs(t)
+                k = s.index(t)
+                attached = {x for x in s if x in att}
+                if attached == set(s[:k]):
+                    cands.append(("attach", t, "append"))
+                if attached == set(s[k + 1:]):
+                    cands.append(("attach", t, "prepend"))
+                if k + 1 < len(s) and s[k + 1] in att:
+                    cands.append(("attach", t, "insert_before"))
+                if k > 0 and s[k - 1] in att:
+                    cands.append(("attach", t, "insert_after"))
+        if not cands:
+            break
+        kind, t, how = rnd.choice(cands)
+        nd = D[t - 1]
+        if kind == "create":
+            count += 1
+            made[t] = count
+            if nd["k"] == "doc":
+                ops.append(ev("new_document", []))
+            elif nd["k"] == "elem":
+                ops.append(ev("new_element", [], ns=nd["ns"], ln=nd["ln"]))
+            elif nd["k"] == "text":
+                ops.append(ev("new_text", [], s=list(nd["t"])))
+            elif nd["k"] == "comm":
+                ops.append(ev("new_comment", [], s=list(nd["t"])))
+            else:
+                ops.append(ev("new_pi", [], ln=nd["ln"], s=list(nd["t"]), b=bool(nd["d"])))
+        elif kind == "setabn":
+            count += 1
+            made[t] = count
+            if nd["k"] == "attr":
+                ops.append(ev("set_attribute", [made[nd["p"]]], ns=nd["ns"], ln=nd["ln"], s=list(nd["t"])))
+            else:
+                ops.append(ev("set_namespace", [made[nd["p"]]], px=nd["ln"], uri=nd["u"]))
+        else:
+            s = sibs(t)
+            k = s.index(t)
+            if how in ("append", "prepend"):
+                a = [made[nd["p"]], made[t]]
+            elif how == "insert_before":
+                a = [made[s[k + 1]], made[t]]
+            else:
+                a = [made[s[k - 1]], made[t]]
+            ops.append(ev(how, a))
+            att.add(t)
+    return ops, made[1]
+
+
+def build_check(prop, tier, seed):
+    """C20: the same document built three ways."""
+    import xmlgen as X
+    import gen
+    quick = tier == "quick"
+    exe = vlib.build_harness()
+    d = vlib.workdir("build")
+    rnd = random.Random(seed)
+    mcs = []
+    jobs = []
+    counts = {"tlc_programs": 0, "random_programs": 0}
+    for target in ([2, 3, 4] if quick else [2, 3, 4, 1]):
+        progs, r = dump_states("MCBuild.tla", BUILD_CFG.format(target=target, dump="TRUE", view="VIEW Progress\n"), f"C20_build{target}", workers=12)
+        mcs.append(r)
+        rnd.shuffle(progs)
+        for p in progs[: (400 if quick else 8000)]:
+            D = p["target"]
+            doc = forest_to_doc(D)
+            toks = X.render_doc(doc, X.CanonChooser(rnd, set()), "doc")
+            jobs.append({"target": D, "ops": p["ops"], "root": p["root"], "text": X.text_of(toks)})
+            counts["tlc_programs"] += 1
+    if not quick:
+        # confluence over ALL behaviours (no VIEW) for the 6-node targets
+        for target in (3, 4):
+            cfgname = write_cfg(f"gen_C20_all{target}.cfg", BUILD_CFG.format(target=target, dump="FALSE", view=""))
+            mcs.append(mc("MCBuild.tla", cfgname, workers=12, timeout=3000, tag=f"C20_all{target}", xmx="16g"))
+            os.remove(os.path.join(vlib.SPEC, cfgname))
+    # random documents with random valid construction orders
+    for k in range(300 if quick else 10000):
+        doc = X.rand_doc(rnd, size=rnd.choice([4, 8, 14, 25]), depth=rnd.choice([1, 2, 3, 4]), rich=(k % 2 == 0))
+        # as a target forest
+        f = gen.Forest()
+        droot = f.add(gen.node("doc"))
+
+        def add_item(it, parent):
+            if isinstance(it, dict):
+                e = f.add(gen.node("elem", ns=it["ns"], ln=it["ln"]), parent)
+                for px, uri in it["decls"]:
+                    f.add(gen.node("nsn", ln=px, u=uri), e)
+                for ans, aln, av in it["attrs"]:
+                    f.add(gen.node("attr", ns=ans, ln=aln, t=av), e)
+                for kid in it["kids"]:
+                    add_item(kid, e)
+            elif it[0] == "text":
+                f.add(gen.node("text", t=it[1]), parent)
+            elif it[0] == "comm":
+                f.add(gen.node("comm", t=it[1]), parent)
+            else:
+                f.add(gen.node("pi", ln=it[1], t=it[2] or [], d=it[2] is not None), parent)
+
+        for it in doc["before"]:
+            add_item(it, droot)
+        add_item(doc["root"], droot)
+        for it in doc["after"]:
+            add_item(it, droot)
+        D = f.n
+        # xml:id values are normalised by the parser: keep them in normal form so that the three routes agree
+        ops, root = random_program(D, rnd)
+        try:
+            toks = X.render_doc(doc, X.RandomChooser(rnd), "doc")
+        except ValueError:
+            continue
+        jobs.append({"target": D, "ops": ops, "root": root, "text": X.text_of(toks)})
+        counts["random_programs"] += 1
+    rnd.shuffle(jobs)
+    jp = os.path.join(d, "jobs.ndjson")
+    with open(jp, "w") as fh:
+        for j in jobs:
+            fh.write(json.dumps(j) + "\n")
+    op = os.path.join(d, "out.ndjson")
+    vlib.run_harness(exe, ["build", "--jobs", jp, "--out", op], timeout=1800 if quick else 7200)
+    v = vlib.validate_trace_flat(op, module="TraceBuild.tla", cfg="TraceBuild.cfg", nshards=14, timeout=1800 if quick else 10000, tag="C20")
+    violations, known = [], {}
+    for rj in v["rejects"]:
+        if rj["prop"] == "TOOL":
+            raise ToolError(f"generated target rejected as input: {rj['detail']}")
+        if len(violations) < 25:
+            ev = json.loads(v["lines"][rj["line"]])
+            violations.append(vlib.save_replay(prop, {"kind": "build", "job": {k: ev[k] for k in ("target", "ops", "root", "text")}}, rj))
+            log(f"  reject: text={''.join(map(chr, ev['text']))[:160]!r} detail={json.dumps(rj['detail'])[:300]}")
+    distinct = len({json.dumps(j["ops"]) for j in jobs})
+    cov = {"states": sum(r["distinct"] for r in mcs), "transitions": sum(r["generated"] for r in mcs),
+           "traces_validated_against_impl": len(jobs), "evaluations": 3 * len(jobs), "distinct_nontrivial": distinct,
+           "rule": "one event per (target document, construction program): the program is executed on the real crate, the target is also built by fixed::Document::xotify and by parsing a rendering; TLC compares the three trees with the target and the three serialisations with each other; distinct = distinct programs",
+           "samples": [{"ops": [o["op"] for o in jobs[0]["ops"]], "text": "".join(map(chr, jobs[0]["text"]))[:200]}], "exhaustive": False, "inputs": counts}
+    import shutil
+    shutil.rmtree(d, ignore_errors=True)
+    return {"violations": violations, "known": [], "coverage": cov,
+            "assumptions": ["TLC 1.8 and the Json/IOUtils community modules", "with the VIEW TLC prints one program per distinct (forest, progress) state, i.e. every creation order with one attachment order each; all interleavings are checked for confluence in the specification (thorough tier) but not all are replayed",
+                            "the rendering for the parse route is produced by the Python renderer (checked against XotParse by C02)"]}
+
+
 CHECKS = {
     "C04": forest_check,
     "C05": forest_check,
@@ -806,6 +1143,8 @@ CHECKS = {
     "C12": forest_check,
     "C15": forest_check,
     "C18": forest_check,
+    "C19": html_check,
+    "C20": build_check,
     "C01": ser_check,
     "C14": ser_check,
     "C16": ser_check,
